@@ -1532,7 +1532,7 @@ class Interp:
         pc, pk = self.place(e["a"], env)
         cur = place_get(pc, pk)
         rhs = self.ev(e["b"], env)
-        if c is not None:
+        if c is not None and not self.scalar_leaf(c, [cur.get() if isinstance(cur, Ref) else cur, rhs]):
             body = self.callee_body(c)
             if body is not None:
                 ref = cur if isinstance(cur, Ref) else Ref(pc, pk)
